@@ -6,6 +6,7 @@ CONSTANTS
   NP = 1
   E = 3
   LAST_WINS = TRUE
+  SORT_OBJ_ONLY = FALSE
   DROP_SETT = FALSE
 INVARIANT NoBad
 INVARIANT GvUsesOwnTranslation
@@ -19,5 +20,7 @@ INVARIANT StoredError
 INVARIANT OrderIndependent
 INVARIANT IndIsOwned
 INVARIANT SavedRowsDisjoint
+INVARIANT SavedColumnsOwn
+INVARIANT SaveOrder
 PROPERTY OnlyCurrentGrainMoves
 CHECK_DEADLOCK FALSE
